@@ -49,7 +49,7 @@ v("c08-slots-html-loop-no-progress", ["C08"], [(P, "\t\tfor p.curTokenIs(token.H
 v("c08-skipwhitespace-no-readchar", ["C08"], [(L, "\tfor l.char == ' ' || l.char == '\\t' || l.char == '\\n' || l.char == '\\r' {\n\t\tl.readChar()\n\t}", "\tfor l.char == ' ' || l.char == '\\t' || l.char == '\\n' || l.char == '\\r' {\n\t\tif l.isHTML {\n\t\t\tl.readChar()\n\t\t}\n\t}")], rule="R-PROGRESS")
 v("c08-string-loop-ignores-eof", ["C08"], [(L, "\tfor l.char != 0 {\n\t\tprevChar := l.char", "\tfor l.char != quote {\n\t\tprevChar := l.char")], expect="violation", rule="R-")
 v("c08-unterminated-string-accepted", ["C08"], [(L, "\t\tif !closed {\n\t\t\treturn l.newToken(token.ILLEGAL, str)\n\t\t}\n", "\t\t_ = closed\n")], rule="R-DELIM")
-v("c08-unterminated-comment-accepted", ["C08"], [(L, "\t\t\tif !l.skipComment() {\n\t\t\t\treturn l.newToken(token.ILLEGAL, \"{{--\")\n\t\t\t}\n", "\t\t\tl.skipComment()\n")], rule="R-DELIM")
+v("c08-unterminated-comment-accepted", ["C08"], [(L, "\t\t\t\tif !l.skipComment() {\n\t\t\t\t\treturn l.newToken(token.ILLEGAL, \"{{--\")\n\t\t\t\t}\n", "\t\t\t\tl.skipComment()\n")], rule="R-DELIM")
 v("c08-optional-closing-braces", ["C08"], [(P, "\tif !p.expectEndOfCode() {\n\t\treturn nil\n\t}\n\n\tif p.peekTokenIs(token.RBRACES) {", "\tif p.peekTokenIs(token.RBRACES) {")], rule="R-DELIM")
 v("c08-if-without-end-accepted", ["C08"], [(P, "\tif p.peekTokenIs(token.ELSE) {\n\t\tstmt.Alternative = p.parseAlternativeBlock()\n\n\t\tif stmt.Alternative == nil {\n\t\t\treturn nil\n\t\t}\n\t}\n\n\tif !p.expectPeek(token.END) { // move to \"@end\"\n\t\treturn nil\n\t}", "\tif p.peekTokenIs(token.ELSE) {\n\t\tstmt.Alternative = p.parseAlternativeBlock()\n\n\t\tif stmt.Alternative == nil {\n\t\t\treturn nil\n\t\t}\n\t}\n\n\tif p.peekTokenIs(token.END) {\n\t\tp.nextToken()\n\t}")], rule="R-DELIM")
 v("c08-use-without-rparen", ["C08"], [(P, "\tif !p.expectPeek(token.RPAREN) { // move to \")\"\n\t\treturn nil\n\t}\n\n\tp.useStmt = stmt", "\tp.useStmt = stmt")], rule="R-DELIM")
@@ -69,7 +69,7 @@ v("c09-for-post-unguarded", ["C09", "C03"], [(E, "\t\tif node.Post == nil {\n\t\
 v("c09-for-init-assert", ["C09", "C03"], [(E, "\t\tinitStmt, ok := node.Init.(*ast.AssignStmt)\n\t\tif !ok {\n\t\t\tcontinue\n\t\t}\n", "\t\tinitStmt := node.Init.(*ast.AssignStmt)\n")], rule="R-ASSERT")
 v("c09-empty-key-guard-removed", ["C09"], [(E, "\tif idx == \"\" {\n\t\treturn e.newError(node, fail.ErrPropertyNotFound, idx, object.OBJ_OBJ)\n\t}\n\n", "")], rule="R-BOUNDS")
 v("c09-at-negative", ["C09", "C11"], [("evaluator/str_func.go", "if index < 0 || index >= len(chars) {", "if index >= len(chars) {")], rule="R-BOUNDS")
-v("c09-repeat-negative", ["C09", "C11"], [("evaluator/str_func.go", "strings.Repeat(val, max(int(firstArg.Value), 0))", "strings.Repeat(val, int(firstArg.Value))")], rule="R-BOUNDS")
+v("c09-repeat-negative", ["C09", "C11"], [("evaluator/str_func.go", "count := max(int(firstArg.Value), 0)", "count := int(firstArg.Value)")], rule="R-BOUNDS")
 v("c09-slice-end-before-start", ["C09", "C11"], [("evaluator/array_func.go", "\tif end < start {\n\t\tend = start\n\t}\n\n", "")], rule="R-BOUNDS")
 v("c09-array-index-upper-off-by-one", ["C09"], [(E, "if index < 0 || index > max {", "if index < 0 || index > max+1 {")], rule="R-BOUNDS")
 v("c09-nil-pointer-elem", ["C09", "C12"], [("object/utils.go", "\t\tif ptr.IsNil() {\n\t\t\treturn &Nil{}\n\t\t}\n\n", "")], rule="R-NILOBJ")
@@ -91,7 +91,7 @@ v("c15-global-cache-in-string", ["C15", "C16"], [("template.go", "\tctx := ctx.N
 v("c15-ast-write-during-eval", ["C15", "C16"], [(E, "\tif node.Alternative != nil {\n\t\treturn e.Eval(node.Alternative, newEnv)\n\t}\n\n\treturn NIL\n}", "\tif node.Alternative != nil {\n\t\treturn e.Eval(node.Alternative, newEnv)\n\t}\n\n\tnode.Alternatives = nil\n\n\treturn NIL\n}")], rule="R-SHARED")
 v("c15-data-map-written", ["C15", "C16", "C12"], [("template.go", "\tprog, ok := t.programs[filename]", "\tif data != nil {\n\t\tdata[\"__template\"] = filename\n\t}\n\n\tprog, ok := t.programs[filename]")], rule="R-SHARED")
 v("c15-plain-bool-flag-again", ["C15"], [("textwire.go", "var usesTemplates atomic.Bool", "var usesTemplates atomic.Bool\nvar lastWasString bool"), ("textwire.go", "\tusesTemplates.Store(false)\n\n\tprog, errs := parseStr(inp)", "\tusesTemplates.Store(false)\n\tlastWasString = true\n\n\tprog, errs := parseStr(inp)")], rule="R-SHARED")
-v("c16-history-flag-read-on-render", ["C16"], [("template.go", "absPath, err := templateFullPath(filename)", "absPath, err := getFullPath(filename, true)"), ("textwire.go", "var usesTemplates atomic.Bool", "var usesTemplates bool"), ("textwire.go", "\tusesTemplates.Store(false)\n\n\tprog, errs := parseStr(inp)", "\tusesTemplates = false\n\n\tprog, errs := parseStr(inp)"), ("textwire.go", "\tusesTemplates.Store(false)\n\n\tcontent, err := fileContent(absPath)", "\tusesTemplates = false\n\n\tcontent, err := fileContent(absPath)"), ("textwire.go", "\tusesTemplates.Store(true)", "\tusesTemplates = true"), ("files.go", "if usesTemplates.Load() {", "if usesTemplates {"), ("textwire.go", "\t\"strings\"\n\t\"sync/atomic\"\n", "\t\"strings\"\n")], rule="R-SHARED")
+v("c16-history-flag-read-on-render", ["C16"], [("template.go", "absPath, err := templateFullPath(filename)", "absPath, err := getFullPath(filename, true)"), ("textwire.go", "var usesTemplates atomic.Bool", "var usesTemplates bool"), ("textwire.go", "\tusesTemplates.Store(false)\n\n\tprog, errs := parseStr(inp)", "\tusesTemplates = false\n\n\tprog, errs := parseStr(inp)"), ("textwire.go", "\tusesTemplates.Store(false)\n\n\tcontent, err := fileContent(absPath)", "\tusesTemplates = false\n\n\tcontent, err := fileContent(absPath)"), ("textwire.go", "\tusesTemplates.Store(true)", "\tusesTemplates = true"), ("files.go", "if usesTemplates.Load() {", "if usesTemplates {"), ("textwire.go", "\t\"path/filepath\"\n\t\"sync/atomic\"\n", "\t\"path/filepath\"\n")], rule="R-SHARED")
 v("c15-benign-local-buffer", ["C15", "C16"], [("template.go", "\treturn evaluated.String(), nil\n}\n\nfunc (t *Template) Response", "\tout := []string{evaluated.String()}\n\tout[0] += \"\"\n\n\treturn out[0], nil\n}\n\nfunc (t *Template) Response")], expect="silent")
 
 # ---- C03
@@ -155,6 +155,18 @@ v("c20-registry-cleared-in-configure", ["C20"], [("textwire.go", "func Configure
 v("c20-wrong-table-in-has", ["C20"], [("evaluator/utils.go", "\tcase object.FLOAT_OBJ:\n\t\treturn customFunc.Float[funcName] != nil", "\tcase object.FLOAT_OBJ:\n\t\treturn customFunc.Int[funcName] != nil")], rule="R-REGISTRY")
 
 os.makedirs(os.path.join(HERE, "twcheck", "selftest"), exist_ok=True)
+# ---- rules added with the round-4 findings (each is the reverse of a fix, or a guard removed)
+v("c13-infix-error-on-left-operand", ["C13"], [(E, "return e.evalInfixOperatorExp(node.Operator, leftObj, rightObj, node)", "return e.evalInfixOperatorExp(node.Operator, leftObj, rightObj, node.Left)")], rule="R-ERRNODE")
+v("c07-slot-body-entered-on-closer", ["C07", "C02"], [(P, "\t\t\tif !p.expectPeek(token.RPAREN) { // move to \")\"\n\t\t\t\treturn nil\n\t\t\t}\n\t\t}\n\n\t\tslots = append(slots, &ast.SlotStmt{\n\t\t\tToken: tok, // \"@slot\"\n\t\t\tName:  slotName,\n\t\t\tBody:  p.parseBody(),", "\t\t\tif !p.expectPeek(token.RPAREN) { // move to \")\"\n\t\t\t\treturn nil\n\t\t\t}\n\n\t\t\tp.nextToken() // skip \")\"\n\t\t}\n\n\t\tslots = append(slots, &ast.SlotStmt{\n\t\t\tToken: tok, // \"@slot\"\n\t\t\tName:  slotName,\n\t\t\tBody:  p.parseBlockStmt(),")], rule="R-BODYENTRY")
+v("c06-insert-body-entered-on-closer", ["C06"], [(P, "\tif hasBody {\n\t\tstmt.Block = p.parseBody()\n", "\tif hasBody {\n\t\tp.nextToken() // skip \")\"\n\t\tstmt.Block = p.parseBlockStmt()\n")], rule="R-BODYENTRY")
+v("c02-parsebody-without-closer-test", ["C02", "C03"], [(P, "\tif p.peekTokenIs(token.ELSE, token.ELSE_IF, token.END) {\n\t\treturn &ast.BlockStmt{Token: p.peekToken}\n\t}\n\n\tp.nextToken() // move to the first token of the body", "\tp.nextToken() // move to the first token of the body")], rule="R-BODYENTRY")
+v("c08-comment-recursion", ["C08"], [(L, "continue // lex what follows the comment", "return l.NextToken()")], rule="R-RECDEPTH")
+v("c09-repeat-uncapped", ["C09"], [("evaluator/str_func.go", "\tif count > maxStrLen || len(val)*count > maxStrLen {\n\t\tmsg := fmt.Sprintf(fail.ErrFuncResultTooLong, \"repeat\", object.STR_OBJ, maxStrLen)\n\t\treturn nil, errors.New(msg)\n\t}\n\n", "")], rule="R-BOUNDS")
+v("c09-decimal-uncapped", ["C09"], [(U, "\t\tif decimals > maxStrLen {\n\t\t\tmsg := fmt.Sprintf(fail.ErrFuncResultTooLong, \"decimal\", objType, maxStrLen)\n\t\t\treturn nil, errors.New(msg)\n\t\t}\n", "")], rule="R-BOUNDS")
+v("c18-absolute-dir-trimmed", ["C18"], [("textwire.go", "userConfig.TemplateDir = filepath.Clean(opt.TemplateDir)", "userConfig.TemplateDir = strings.Trim(opt.TemplateDir, \"/\")"), ("textwire.go", "\t\"path/filepath\"\n", "\t\"strings\"\n")], rule="R-PATHAPI")
+v("c18-benign-dir-trimright", ["C18"], [("textwire.go", "userConfig.TemplateDir = filepath.Clean(opt.TemplateDir)", "userConfig.TemplateDir = strings.TrimRight(filepath.Clean(opt.TemplateDir), \"/\")"), ("textwire.go", "\t\"path/filepath\"\n", "\t\"path/filepath\"\n\t\"strings\"\n")], expect="silent")
+v("c13-benign-infix-node-renamed", ["C13", "C01"], [(E, "return e.evalInfixOperatorExp(node.Operator, leftObj, rightObj, node)", "op, at := node.Operator, ast.Node(node)\n\n\treturn e.evalInfixOperatorExp(op, leftObj, rightObj, at)")], expect="silent")
+
 with open(os.path.join(HERE, "twcheck", "selftest", "variants.json"), "w") as f:
     json.dump(V, f, indent=1)
 print(len(V), "variants")
